@@ -25,10 +25,12 @@ import (
 )
 
 func TestC29GraceEdge(t *testing.T) {
+	defer checksDividedBy(4)() // every case executes about 150 blocks on two nodes
 	rapid.Check(t, func(t *rapid.T) { graceEdgeCase(t, "TestC29GraceEdge", true) })
 }
 
 func TestC09GraceEdge(t *testing.T) {
+	defer checksDividedBy(4)()
 	rapid.Check(t, func(t *rapid.T) { graceEdgeCase(t, "TestC09GraceEdge", false) })
 }
 
